@@ -244,6 +244,17 @@ def check_metric(case, sub="metric"):
                     # any failure mode of the graph-state-only converter on a non-graph state is the same finding
                     raise Violation(sub, "infidelity-value", site, cls_, v.detail)
                 raise
+    # one metric object, its target replaced between two evaluations (same representation): the second value is about the new target
+    for rep in ("s", "dm"):
+        mk = (lambda S, D, v: QuantumState(gs.clifford_tableau(S, D, n), rep_type="s")) if rep == "s" else (lambda S, D, v: QuantumState(sv.dm(v), rep_type="dm"))
+        metric = Infidelity(mk(Sa, Da, va))
+        v1 = guarded(sub, "target_replaced", metric.evaluate, mk(Sb, Db, vb), None)
+        metric.target = mk(Sb, Db, vb)
+        v2 = guarded(sub, "target_replaced", metric.evaluate, mk(Sb, Db, vb), None)
+        if abs((1 - v1) - F) > TOL or abs(v2) > TOL:
+            raise Violation(sub, "infidelity-value", "Infidelity:%s/%s" % (rep, rep), "target_replaced",
+                            "metric object re-used with another target: values %r then %r, expected %r then 0" % (v1, v2, 1 - F))
+    cl.append("metric_reused_with_other_target")
     return Info(nontrivial=(0 < F < 1), classes=cl)
 
 
